@@ -2,11 +2,11 @@ package main
 
 import (
 	"fmt"
-	"os"
 	"go/ast"
 	"go/constant"
 	"go/token"
 	"go/types"
+	"os"
 	"sort"
 	"strings"
 )
@@ -26,9 +26,9 @@ func init() {
 // ---------- opcode model shared by several rules ----------
 
 type opModel struct {
-	names    []string                    // opcode constant names below _END_, by value
-	val      map[string]int64            // name -> value
-	cases    map[string]*ast.CaseClause  // case in switchThreading (keyed "vm.OP_X")
+	names    []string                   // opcode constant names below _END_, by value
+	val      map[string]int64           // name -> value
+	cases    map[string]*ast.CaseClause // case in switchThreading (keyed "vm.OP_X")
 	sw       *ast.SwitchStmt
 	swFn     *ast.FuncDecl
 	handlers map[string]*ast.FuncDecl // instructions[OP_X] = H
